@@ -28,12 +28,18 @@ bool cond(Ctx const* c, int idx, Args a)
   }
 }
 
+void nested_call(int o, int f, long a0, long a1);   // defined below: a mock call made from inside a side effect
+
 void fx(Ctx const* c, int idx, Args)
 {
   ev("fx e" + std::to_string(c->id) + " " + std::to_string(idx));
   int k = c->fx.at(static_cast<size_t>(idx));
   if (k == 1) throw std::runtime_error("std");
   if (k == 2) throw 42;
+  if (k == 3) {
+    auto const& n = c->nest.at(static_cast<size_t>(idx));
+    nested_call(n.o, n.f, n.a0, n.a1);          // whatever it throws propagates through the side effect
+  }
 }
 
 int ret(Ctx const* c, Args a)
@@ -303,14 +309,15 @@ void install_reporter(int r)
   current_reporter = r;
   trompeloeil::set_reporter(
     [r](trompeloeil::severity s, char const* file, unsigned long line, std::string const& msg) {
+      if (msg == "#probe") { probe_answer = r; return; }
       if (muted) { if (s == trompeloeil::severity::fatal) throw Reported{}; return; }
       (void)file; (void)line;
       ev(std::string("report ") + (s == trompeloeil::severity::fatal ? "F" : "N") + " r" + std::to_string(r) + " " + canon_report(msg));
       if (s == trompeloeil::severity::fatal) throw Reported{};
     },
     [r](char const* msg) {
-      if (muted) return;
       if (std::strcmp(msg, "#probe") == 0) { probe_answer = r; return; }
+      if (muted) return;
       ev("ok r" + std::to_string(r) + " " + msg);
     });
 }
@@ -389,7 +396,16 @@ void do_expect(std::vector<std::string> const& t)
     else if (kv[0] == "mod") c->conds.push_back({2, std::stoi(kv[1]), std::stol(kv[2]), std::stol(kv[3])});
     else c->conds.push_back({3, std::stoi(kv[1]), std::stol(kv[2]), 0});
   }
-  for (auto const& x : X) c->fx.push_back(x == "log" ? 0 : x == "std" ? 1 : 2);
+  for (auto const& x : X) {
+    if (x.compare(0, 5, "call:") == 0) {
+      auto kv = split(x, ':');
+      c->fx.push_back(3);
+      c->nest.push_back({std::stoi(kv.at(1)), std::stoi(kv.at(2)), std::stol(kv.at(3)), kv.size() > 4 ? std::stol(kv[4]) : 0});
+    } else {
+      c->fx.push_back(x == "log" ? 0 : x == "std" ? 1 : 2);
+      c->nest.push_back({0, 0, 0, 0});
+    }
+  }
   int rk = 0;
   {
     auto kv = split(R.at(0), ':');
@@ -460,6 +476,31 @@ void do_call(std::vector<std::string> const& t)
   if (caught) { finish_call_events(caught); res = caught; }
   ev("res " + res);
 }
+
+} // namespace
+namespace hx {
+void nested_call(int o, int f, long a0, long a1)
+{
+  if (mocksM.count(o)) {
+    MockM& m = *mocksM.at(o);
+    switch (f) {
+      case 0: m.fv(static_cast<int>(a0)); break;
+      case 1: (void)m.fi(static_cast<int>(a0)); break;
+      case 2: (void)m.g(static_cast<int>(a0), static_cast<int>(a1)); break;
+      default: (void)m.fi(a0); break;
+    }
+  } else {
+    MockN& m = *mocksN.at(o);
+    switch (f) {
+      case 0: m.fv(static_cast<int>(a0)); break;
+      case 1: (void)m.fi(static_cast<int>(a0)); break;
+      case 2: (void)m.g(static_cast<int>(a0), static_cast<int>(a1)); break;
+      default: (void)m.fi(a0); break;
+    }
+  }
+}
+} // namespace hx
+namespace {
 
 template <typename M> void erase_delete(M& m) { for (auto& kv : m) delete kv.second; m.clear(); }
 
@@ -577,24 +618,37 @@ void process(std::string const& line)
     delete tracers.at(id);
     tracers.erase(id);
   } else if (op == "setreporter") {
+    // "setreporter r"   : trompeloeil::set_reporter(f)        — the violation reporter only
+    // "setreporter r k" : trompeloeil::set_reporter(f, ok_f)  — both
     int r = std::stoi(t[1]);
-    int prev_installed = current_reporter;
-    (void)prev_installed;
     auto make_rep = [r](trompeloeil::severity s, char const*, unsigned long, std::string const& msg) {
+      if (msg == "#probe") { probe_answer = r; return; }
       if (muted) { if (s == trompeloeil::severity::fatal) throw Reported{}; return; }
       ev(std::string("report ") + (s == trompeloeil::severity::fatal ? "F" : "N") + " r" + std::to_string(r) + " " + canon_report(msg));
       if (s == trompeloeil::severity::fatal) throw Reported{};
     };
-    auto make_ok = [r](char const* msg) {
-      if (muted) return;
-      if (std::strcmp(msg, "#probe") == 0) { probe_answer = r; return; }
-      ev("ok r" + std::to_string(r) + " " + msg);
-    };
-    auto prev = trompeloeil::set_reporter(make_rep, make_ok);
-    current_reporter = r;
-    probe_answer = -1;
-    prev.second("#probe");
-    ev("was r" + std::to_string(probe_answer));
+    if (t.size() > 2) {
+      int k = std::stoi(t[2]);
+      auto make_ok = [k](char const* msg) {
+        if (std::strcmp(msg, "#probe") == 0) { probe_answer = k; return; }
+        if (muted) return;
+        ev("ok r" + std::to_string(k) + " " + msg);
+      };
+      auto prev = trompeloeil::set_reporter(make_rep, make_ok);
+      current_reporter = r;
+      probe_answer = -1;
+      prev.first(trompeloeil::severity::nonfatal, "", 0UL, "#probe");
+      ev("was r" + std::to_string(probe_answer));
+      probe_answer = -1;
+      prev.second("#probe");
+      ev("okwas r" + std::to_string(probe_answer));
+    } else {
+      auto prev = trompeloeil::set_reporter(make_rep);
+      current_reporter = r;
+      probe_answer = -1;
+      prev(trompeloeil::severity::nonfatal, "", 0UL, "#probe");
+      ev("was r" + std::to_string(probe_answer));
+    }
   } else {
     ev("parse-error");
   }
